@@ -18,10 +18,19 @@ pub trait StrExt {
 
 impl StrExt for str {
     fn has_linebreak(&self) -> bool {
-        self.contains('\n')
+        self.contains(typst_syntax::is_newline)
     }
 
     fn count_linebreaks(&self) -> usize {
-        self.chars().filter(|c| *c == '\n').count()
+        // `\r\n` counts once, like every other newline recognised by Typst.
+        let mut count = 0;
+        let mut prev_cr = false;
+        for c in self.chars() {
+            if typst_syntax::is_newline(c) && !(prev_cr && c == '\n') {
+                count += 1;
+            }
+            prev_cr = c == '\r';
+        }
+        count
     }
 }
